@@ -73,8 +73,32 @@ def one(ctx, rng, xr):
     E = rng.random((2, n, nf, nd)) + np.arange(n)[None, :, None, None]
     ds = xr.Dataset({"efth": (("time", "site", "freq", "dir"), E)},
                     coords={"time": [0, 1], "site": np.arange(n) + 10, "freq": [0.1, 0.2, 0.3], "dir": [0.0, 90.0, 180.0, 270.0]})
-    ds["lon"] = (("site",), dlon.copy())
-    ds["lat"] = (("site",), slat.copy())
+    sdt = str(rng.choice(["float64", "float64", "float64", "float32"]))   # lattice values are exact in float32 too
+    hist = str(rng.choice(["none", "none", "none", "assign", "values"]))
+    if hist == "none":
+        ds["lon"] = (("site",), dlon.astype(sdt))
+        ds["lat"] = (("site",), slat.astype(sdt))
+    else:
+        # history: the same Dataset object first carries other station positions (other layout, possibly the
+        # other convention), is queried once, and then has its coordinates replaced in place
+        olon, olat, _ = stations(rng)
+        olon = np.resize(olon, n)
+        olat = np.resize(olat, n)
+        olon = to360(olon) if rng.random() < 0.5 else to180(olon)
+        ds["lon"] = (("site",), olon.astype(sdt))
+        ds["lat"] = (("site",), olat.astype(sdt))
+        try:
+            m0 = str(rng.choice(["nearest", "idw", "bbox"]))
+            ds.spec.sel([float(olon[0])], [float(olat[0])], method=m0, tolerance=5.0)
+        except Exception:
+            pass
+        if hist == "assign":
+            ds["lon"] = (("site",), dlon.astype(sdt))
+            ds["lat"] = (("site",), slat.astype(sdt))
+        else:
+            ds["lon"].values[:] = dlon.astype(sdt)
+            ds["lat"].values[:] = slat.astype(sdt)
+        rec.ok("history", "%s|%s" % (hist, m0))
     method = str(rng.choice(["nearest", "nearest", "idw", "idw", "bbox", "bbox"]))
     nq = int(rng.integers(1, 5))
     # queries near stations (incl. exact hits and points across the meridians) or anywhere
@@ -83,6 +107,12 @@ def one(ctx, rng, xr):
     qlon_true = (slon[qi] + off) % 360
     qlat = np.round((slat[qi] + rng.uniform(-1, 1, nq) * float(rng.choice([0.0, 0.2, 2.0]))) * 8) / 8
     qlon_true = (np.round(qlon_true * 8) / 8) % 360
+    offlat = bool(rng.random() < 0.3) and method != "bbox"
+    if offlat:
+        # query points off the 1/8-degree lattice (not representable in single precision), some very close to a station
+        step = float(rng.choice([0.001, 0.01, 0.1]))
+        qlon_true = (qlon_true + step * rng.integers(3, 40, nq) * rng.choice([-1, 1], nq)) % 360
+        qlat = qlat + step * rng.integers(3, 40, nq) * rng.choice([-1, 1], nq)
     if rng.random() < 0.15 and nq > 1:
         qlon_true[1], qlat[1] = qlon_true[0], qlat[0]      # duplicated query point
     qconv_req = str(rng.choice(["360", "180"]))
@@ -91,7 +121,7 @@ def one(ctx, rng, xr):
     tol = float(rng.choice([0.0, 0.5, 2.0, 10.0]))
     pre = bool(rng.random() < 0.3)
     kw = dict(dset_lons=ds["lon"].values.copy(), dset_lats=ds["lat"].values.copy()) if pre else {}
-    key = "%s|stations=%s|dset=%s|query=%s|tol=%g|pre=%s" % (method, kind, dconv, qconv, tol, pre)
+    key = "%s|stations=%s:%s|dset=%s|query=%s%s|tol=%g|pre=%s|hist=%s" % (method, kind, sdt, dconv, qconv, ":offlattice" if offlat else "", tol, pre, hist)
     det = {"station_lon": dlon, "station_lat": slat, "query_lon": qlon, "query_lat": qlat, "tolerance": tol, "method": method}
     if method == "nearest":
         nearest(rec, key, det, ds, slon, slat, qlon, qlat, qconv, tol, kw, rng, E)
